@@ -7,7 +7,9 @@ Everything here is stdlib-only.  A property module (props/cNN.py) receives a Ctx
   * writes /verif/evidence/<ID>.json and replay artefacts.
 """
 import concurrent.futures
+import fcntl
 import hashlib
+import threading
 import json
 import os
 import re
@@ -66,6 +68,10 @@ def engines_hash():
     return _tree_hash_cache["eng"]
 
 
+_BUILD_LOCKS = {}
+_BUILD_LOCKS_GUARD = threading.Lock()
+
+
 def build(name, sources, flags=(), libs=(), cxx=None):
     """Compile `sources` (paths relative to /verif or absolute) into one executable.
 
@@ -82,10 +88,22 @@ def build(name, sources, flags=(), libs=(), cxx=None):
     if os.path.exists(exe):
         return exe
     os.makedirs(outdir, exist_ok=True)
+    # one builder per target at a time: threads of this process (setup warms several checks that share a harness) and other
+    # processes (two checks started at once) wait here and then find the finished executable
+    with _BUILD_LOCKS_GUARD:
+        tlock = _BUILD_LOCKS.setdefault(exe, threading.Lock())
+    with tlock, open(os.path.join(outdir, "." + name + ".lock"), "w") as lf:
+        fcntl.flock(lf, fcntl.LOCK_EX)
+        if os.path.exists(exe):
+            return exe
+        return _build_locked(name, srcs, flags, libs, cxx, outdir, exe)
+
+
+def _build_locked(name, srcs, flags, libs, cxx, outdir, exe):
     objs = []
 
     def comp(src):
-        obj = os.path.join(outdir, os.path.basename(src) + ".o")
+        obj = os.path.join(outdir, name + "." + os.path.basename(src) + ".o")
         cmd = [cxx] + BASE_FLAGS + list(flags) + ["-c", src, "-o", obj]
         r = subprocess.run(cmd, stdout=subprocess.PIPE, stderr=subprocess.STDOUT, text=True)
         if r.returncode != 0:
@@ -97,7 +115,7 @@ def build(name, sources, flags=(), libs=(), cxx=None):
     else:
         with concurrent.futures.ThreadPoolExecutor(max_workers=NCPU) as ex:
             objs = list(ex.map(comp, srcs))
-    tmp = exe + ".tmp%d" % os.getpid()
+    tmp = exe + ".tmp%d.%d" % (os.getpid(), threading.get_ident())
     cmd = [cxx] + BASE_FLAGS + list(flags) + objs + ["-o", tmp] + list(libs)
     r = subprocess.run(cmd, stdout=subprocess.PIPE, stderr=subprocess.STDOUT, text=True)
     if r.returncode != 0:
